@@ -40,7 +40,7 @@ KeyNibs == << <<1, 2>>,                              \* 1: 0x12
               <<10>> \o Rep(0, 62) \o <<1>>,         \* 6: 0xa0 00..00 01 (32 bytes)
               <<10>> \o Rep(0, 62) \o <<2>>,         \* 7: 0xa0 00..00 02 (32 bytes, differs in the last nibble)
               <<>> >>                                \* 8: the empty key (prefix of every key)
-ValLen == <<1, 31, 32, 33, 60>>                      \* value i is ValLen[i] bytes long
+ValLen == <<1, 31, 32, 33, 60>>                      \* value i is ValLen[i] bytes long (value 5 starts with the bytes of value 2)
 
 RECURSIVE LexLess(_, _)
 LexLess(a, b) == IF a = <<>> THEN b # <<>>
